@@ -7,7 +7,8 @@ from props._gitobj import GitRepo
 
 ID = "C02"
 THEOREMS = ["C02_ident_dec_enc", "C02_commit_dec_enc", "C02_commit_enc_dec_bytes", "C02_commit_reencode_refuted",
-            "C02_tag_dec_enc", "C02_tag_enc_dec_bytes", "C02_tag_reencode_refuted", "C02_message_matches_git", "C02_fields_match_git_refuted"]
+            "C02_tag_dec_enc", "C02_tag_enc_dec_bytes", "C02_tag_reencode_refuted", "C02_message_matches_git", "C02_ident_matches_git_partial", "C02_ident_matches_git_refuted",
+            "C02_fields_match_git_refuted"]
 MODEL_FILES = ["ObjLines.v", "Ident.v", "Commit.v", "Tag.v"]
 MODELLED = ("plumbing/object/commit_scanner.go: the whole stateFn decoder (scanTree, scanParents, scanAuthor, scanCommitter, scanHeaders, "
             "scanPgpCont/scanPgp256Cont/continuationCont, scanExtraCont, finaliseExtra, scanMessage, push-back, sawEncoding, splitHeader, "
@@ -179,7 +180,7 @@ class Main(Suite):
     go_cmd = "c02"
     coq_imports = IMPORTS
     quick_n = 450
-    thorough_n = 8000
+    thorough_n = 3000
 
     def gen(self, rng, n, tier):
         cases = []
@@ -275,6 +276,20 @@ class Main(Suite):
         te = [(c, o[1]) for c, o in te if o[0] == "ok"]
         for (c, b), o in zip(te, repo.tag_fields_many(repo.store("tag", [b for _, b in te]), [bool(cl.get(c["id"])) and c["type"] in GIT_TAG_TYPES for c, _ in te], "e")):
             git[c["id"]] = o
+        # well-formed structs: the agreement clauses of the bytes go-git wrote (a name ending in TAB round-trips but git strips it)
+        exprs2, keys2 = [], []
+        for c, b in ce:
+            if cl.get(c["id"]):
+                exprs2.append('c02_agree_commit "%s"' % b.hex())
+                keys2.append(c["id"])
+        for c, b in te:
+            if cl.get(c["id"]):
+                exprs2.append('c02_agree_tag "%s"' % b.hex())
+                keys2.append(c["id"])
+        self._enc_clauses = {}
+        for i, o in zip(keys2, ctx.coq_eval(IMPORTS, exprs2)):
+            if o is not None:
+                self._enc_clauses[i] = [x == "true" for x in parse_out(o)]
         self._cache = (cases, (git, cl, spec))
         return self._cache[1]
 
@@ -326,10 +341,12 @@ class Main(Suite):
                         pass
                     elif g is None:
                         probs.append(("git does not parse the encoding of a well-formed struct", None))
+                    elif i not in self._enc_clauses:
+                        pass
                     elif op == "cenc":
-                        probs += cmp_commit_git(want, g, o[1], [True] * 7)
+                        probs += cmp_commit_git(want, g, o[1], self._enc_clauses[i])
                     else:
-                        probs += cmp_tag_git(want, g, o[1], [True] * 3)
+                        probs += cmp_tag_git(want, g, o[1], self._enc_clauses[i])
             why = verdict(probs)
             if why:
                 fails[i] = why
